@@ -117,6 +117,13 @@ TFirstUse == /\ Ev.e = "FirstUse"
                   /\ bad' = IF ok THEN bad ELSE bad + 1
                   /\ IF ok THEN TRUE ELSE Reject(l, "FirstUse")
              /\ UNCHANGED <<vars, ids, sInFac, sCalled, sPending, sIds>>
-TNext == l <= TraceLen /\ l' = l + 1 /\ (TLStep \/ TLBegin \/ TSkip \/ TAttack \/ TStress \/ THammer \/ TFirstUse)
+\* a factory that loads the name it was asked for itself: one value for the nested call, the outer call and every later one;
+\* a factory that throws: the exception reaches the caller and the loader keeps serialising factory calls afterwards
+TDirected == /\ Ev.e \in {"Reentrant", "AfterThrow"}
+             /\ LET ok == IF Ev.e = "Reentrant" THEN Ev.same = 1 ELSE (Ev.threw = 1 /\ Ev.overlap = 0) IN
+                  /\ bad' = IF ok THEN bad ELSE bad + 1
+                  /\ IF ok THEN TRUE ELSE Reject(l, Ev.e)
+             /\ UNCHANGED <<vars, ids, sInFac, sCalled, sPending, sIds>>
+TNext == l <= TraceLen /\ l' = l + 1 /\ (TLStep \/ TLBegin \/ TSkip \/ TAttack \/ TStress \/ THammer \/ TFirstUse \/ TDirected)
 TSpec == TInit /\ [][TNext]_allvars
 =============================================================================
